@@ -486,7 +486,7 @@ func (fv *FV) canInline(fn *ssa.Function) bool {
 			}
 		}
 	}
-	return n <= 60
+	return n <= 250
 }
 
 func hasLoop(fn *ssa.Function) bool {
